@@ -229,6 +229,35 @@ class C15(CheckBase):
             self._ref_cache[key] = r
         return r
 
+    def reconfigure(self, t, spec_from: dict, spec_to: dict):
+        """Give the live instance t (built from spec_from) the options and
+        the body of spec_to."""
+        cf, ct = self._config(spec_from), self._config(spec_to)
+        for k in sorted(set(cf) | set(ct)):
+            if cf.get(k) != ct.get(k):
+                setattr(t, k, ct[k])
+        t.write(spec_to["body"])
+        return t
+
+    def reference_reconf(self, spec_from: dict, spec_to: dict,
+                         world: World) -> list:
+        """Render outcome of the same reconfiguration without any cache."""
+        from chameleon.loader import MemoryLoader
+        with world.harness():
+            try:
+                t = self.build(spec_from, MemoryLoader(), world)
+            except Exception:       # noqa: BLE001
+                return ["skipped"]      # (nothing to reconfigure)
+            try:
+                t.render(**render_args())
+            except Exception:       # noqa: BLE001
+                pass
+            try:
+                t = self.reconfigure(t, spec_from, spec_to)
+                return ["ok", t.render(**render_args())]
+            except Exception as e:      # noqa: BLE001
+                return outcome_of_exc(e)
+
     # -- generation ------------------------------------------------------------
     def gen(self, ch: Choices, tier: str) -> dict:
         if tier == "thorough" and ch.coin(0.004):
@@ -275,12 +304,31 @@ class C15(CheckBase):
             case["family"] = name
             case["templates"] = [ta, tb]
             mode = ch.pick(["same", "restart", "two"], "mode")
+            # a live instance is given the other configuration (attribute
+            # assignment, then write(body)): possible when both are string
+            # templates of one class and the target passes every option in
+            # which they differ
+            ca_, cb_ = ta["config"], tb["config"]
+            if "file" not in ta and ta["cls"] == tb["cls"] and \
+                    all(k in cb_ and cb_[k] is not None
+                        for k in set(ca_) | set(cb_) if ca_.get(k) != cb_.get(k)) \
+                    and ch.coin(0.35):
+                mode = "reconf"
             case["mode"] = mode
             full = [["construct", 0], ["render", 0], ["construct", 1],
                     ["render", 1], ["render", 0]]
             if mode == "same":
                 case["phases"] = [{"procs": [{"name": "A", "ops": full}],
                                    "sched": {"kind": "fifo"}}]
+            elif mode == "reconf":
+                case["phases"] = [
+                    {"procs": [{"name": "A", "ops": [
+                        ["construct", 0], ["render", 0], ["reconf", 0],
+                        ["render", 1]]}], "sched": {"kind": "fifo"}},
+                    {"procs": [{"name": "B", "ops": [
+                        ["construct", 1], ["render", 1], ["construct", 0],
+                        ["render", 0]] if ch.coin(0.5) else full[:4]}],
+                     "sched": {"kind": "fifo"}}]
             elif mode == "restart":
                 case["phases"] = [
                     {"procs": [{"name": "A", "ops": full[:2]}],
@@ -583,6 +631,9 @@ class C15(CheckBase):
         stats = {"fired": {}, "skipped": {}, "ops": 0, "observers": 0}
         cover: set[str] = set()
         refs = [self.reference(s, world) for s in temps]
+        reconf_ref = None
+        if case.get("mode") == "reconf":
+            reconf_ref = self.reference_reconf(temps[0], temps[1], world)
         is_dry = case.get("_dry", False)
 
         if case.get("faults") and not is_dry:
@@ -700,7 +751,16 @@ class C15(CheckBase):
                     for op, tid in pd["ops"]:
                         fired_before = sum(world.fired.values())
                         try:
-                            if op == "construct" or tid not in mine:
+                            if op == "reconf" and tid not in mine:
+                                r = ["skipped"]
+                            elif op == "reconf":
+                                used.add(1 - tid)
+                                mine[1 - tid] = self.reconfigure(
+                                    mine[tid], temps[tid], temps[1 - tid])
+                                del mine[tid]
+                                r = ["ok", mine[1 - tid].render(
+                                    **render_args())]
+                            elif op == "construct" or tid not in mine:
                                 used.add(tid)
                                 mine[tid] = self.build(
                                     temps[tid], loader_by_proc[proc.name],
@@ -751,6 +811,9 @@ class C15(CheckBase):
                     ref = refs[tid][0] if (op == "construct" or
                                            refs[tid][0] != ["ok"]) \
                         else refs[tid][1]
+                    if op == "reconf":
+                        ref = reconf_ref
+                        cover.add("reconfigured")
                     if r[0] == "exc" and faulted and r[1] in (
                             "OSError", "PermissionError", "FileNotFoundError"):
                         cover.add("relaxed:" + r[1])
